@@ -71,6 +71,10 @@ def make_reservoir(cls: str, nx: int, p_f, p_i: float, table: str | None):
 
     if cls == "ideal":  # the optional fluid argument must not change the ideal-gas result
         return IdealReservoir(nx, p_f, p_i, tables.fluid(table, p_i) if table else None)
+    if cls == "two":  # the oil-gas class: same solver through super().simulate(time), scalar frac-face pressure only
+        from bluebonnet.flow import TwoPhaseReservoir  # noqa: PLC0415
+
+        return TwoPhaseReservoir(nx, p_f, p_i, tables.fluid(table, p_i))
     return SinglePhaseReservoir(nx, p_f, p_i, tables.fluid(table, p_i))
 
 
